@@ -6,7 +6,7 @@ use super::{Judged, Property, Tier};
 use crate::rng::{mix, Rng};
 use crate::scenario::*;
 use crate::trace::*;
-use crate::wire::{self, Name};
+use crate::wire::{self, Name, Rec};
 use serde_json::json;
 
 pub struct C13;
@@ -73,6 +73,38 @@ impl Property for C13 {
         let mut p = if has4 { peer_v4(1, 50, 0) } else { PeerCfg { seg: 0, v4: None, v6: Some("fe80::1:50".into()), responder: None } };
         p.responder = Some(ResponderCfg { records: recs, delay_ms: 15, honor_known_answers: true, additionals: true, active: true, max_answers: None, skip_first: 0, conflict_probes: 0 });
         s.peers.push(p);
+        if index % 12 == 11 {
+            // "forget" worlds with a shared host: the stopped type has instances on several hosts of its own and one on a host
+            // that an instance of another, still running, browse also uses; the stop must forget the addresses of the
+            // hosts of its own (asked for afterwards by a hostname search), whatever it keeps for the shared one
+            s.peers[0].responder = None;
+            let ty1 = ty_name(3 + rng.below(3));
+            let t0 = rng.below(300);
+            s.op(t0, Op::Browse { d: 0, ty: ty0.clone(), slot: 10 });
+            s.op(t0 + 5, Op::Browse { d: 0, ty: ty1.clone(), slot: 12 });
+            let n_own = 3 + rng.below(5);
+            let mut recs: Vec<Rec> = vec![];
+            recs.extend(instance_recs(&ty0, "on shared", "Shared-Host.local.", 8000, &v4s, &v6s, vec![0], 4500, 120).all());
+            recs.extend(instance_recs(&ty1, "other type", "Shared-Host.local.", 8100, &v4s, &v6s, vec![0], 4500, 120).all());
+            for k in 0..n_own {
+                let a4 = format!("192.168.1.{}", 60 + k);
+                let a6 = format!("fe80::1:{:x}", 0x60 + k);
+                let (o4, o6): (Vec<&str>, Vec<&str>) = if has4 { (vec![a4.as_str()], vec![]) } else { (vec![], vec![a6.as_str()]) };
+                recs.extend(instance_recs(&ty0, &format!("own {k}"), &format!("Own-{k}.local."), 8200 + k as u16, &o4, &o6, vec![0], 4500, 120).all());
+            }
+            let mut seen: Vec<Rec> = vec![];
+            recs.retain(|r| if seen.contains(r) { false } else { seen.push(r.clone()); true });
+            s.op(t0 + 300, Op::PeerSend { p: 0, v4: has4, sport: 5353, msg: announce(&recs), to: Dest::Mcast });
+            let ts = t0 + 1500 + rng.below(3000);
+            s.op(ts, Op::StopBrowse { d: 0, ty: ty0.clone() });
+            let tq = ts + 1 + rng.below(400);
+            s.op(tq, Op::ResolveHost { d: 0, host: format!("own-{}.local.", rng.below(n_own)), timeout: None, slot: 11 });
+            s.params = json!({"forget": true});
+            s.horizon_ms = tq + 20_000;
+            s.max_steps = 30_000;
+            s.sort_ops();
+            return s;
+        }
         if index % 6 == 5 {
             // "forget" worlds: one browse learns the instances (host spelled in mixed case), the peer falls silent, the
             // browse is stopped, and a cache-only browse or a hostname search opened right afterwards must find nothing
